@@ -619,6 +619,12 @@ class Lib:
                 return lambda sep=None: TX.split_on(obj, sep)
             if name == 'splitlines':
                 return lambda: TX.splitlines(obj)
+            if name == 'strip':
+                def strip_(chars=None):
+                    if chars is not None:
+                        raise EngineError('str.strip(chars) on a symbolic string')
+                    return TX.strip(obj)
+                return strip_
             raise EngineError('str.%s on a symbolic string' % name)
         if isinstance(obj, TX.FileObj):
             return getattr(obj, name)
